@@ -26,6 +26,12 @@ def oracle_slowrefresh(case, impl):
     return None
 
 
+def _oracle_localaddr(case, impl):
+    from props.c11 import oracle_pwire
+    from props.c01 import oracle_localaddr
+    return oracle_localaddr(case, impl) or oracle_pwire(case, impl)
+
+
 def oracle_race(case, impl):
     """the soak itself checks what no sequential order could produce: a request reaching an endpoint with the host / path
     another request was given, or most queries unanswered"""
@@ -37,6 +43,9 @@ def oracle_race(case, impl):
 SPEC = dict(
     lean_module="NV.Props.C15",
     areas=[dict(name="race", n_quick=1, n_thorough=1, race=True, oracle=oracle_race, timeout=900),
+           # per-query data handed from the UDP receive loop to the handlers (local address): clients on several local addresses
+           # in flight together must each be resolved and answered with their own
+           dict(name="localaddr", n_quick=25, n_thorough=300, shards_thorough=2, oracle=_oracle_localaddr, timeout=600),
            dict(name="slowrefresh", n_quick=9, n_thorough=60, oracle=oracle_slowrefresh, timeout=300)],
     level_text="Lock discipline by proof over regenerated facts: every access to a field of a mutex-owning struct in discovery, "
                "resolver/endpoint, resolver, arp, ndp is re-extracted from the source with the lock mode held (CFG dataflow, callees "
